@@ -1759,7 +1759,7 @@ def correspond_decl_stmts(ctx, corr):
                 msg = "model decodes the statement but the implementation rejects it"
             elif r[0] == 'ok' and (r[1], r[2]) != (m[1], m[2]):
                 msg = "model %s %s; implementation %s %s" % (m[1], m[2], r[1], r[2])
-        elif m[0] == 'err' and m[1] in (1, 2, 3) and r[0] == 'ok':
+        elif m[0] == 'err' and m[1] in (1, 2, 3) and r[0] == 'ok' and not decl.final_as_name(toks):
             msg = "model rejects (code %d) but the implementation reports %s" % (m[1], r[2])
         elif m[0] == 'err' and m[1] == 9:
             msg = "model ran out of fuel"
@@ -1851,7 +1851,7 @@ def correspond_typedef_stmts(ctx, corr):
                 msg = "model decodes the typedef statement but the implementation rejects it"
             elif r[0] == 'ok' and r[1] != m[1]:
                 msg = "model %s; implementation %s" % (m[1], r[1])
-        elif m[0] == 'err' and m[1] in (1, 2, 3) and r[0] == 'ok':
+        elif m[0] == 'err' and m[1] in (1, 2, 3) and r[0] == 'ok' and not decl.final_as_name(toks):
             msg = "model rejects (code %d) but the implementation reports %s" % (m[1], r[1])
         elif m[0] == 'err' and m[1] == 9:
             msg = "model ran out of fuel"
@@ -1946,7 +1946,7 @@ def correspond_op_fns(ctx, corr):
                 msg = "model decodes the operator function but the implementation rejects it"
             elif r[0] == 'ok' and tuple(r[1:]) != tuple(m[1:8]):
                 msg = "model %s; implementation %s" % (m[1:8], r[1:])
-        elif m[0] == 'err' and m[1] in (1, 2, 3) and r[0] == 'ok':
+        elif m[0] == 'err' and m[1] in (1, 2, 3) and r[0] == 'ok' and not decl.final_as_name(toks):
             msg = "model rejects (code %d) but the implementation reports %s" % (m[1], r[1:])
         elif m[0] == 'err' and m[1] == 9:
             msg = "model ran out of fuel"
@@ -2060,7 +2060,7 @@ def correspond_method_impls(ctx, corr):
                 msg = "model decodes the method definition but the implementation rejects it"
             elif r[0] == 'ok' and tuple(r[1:]) != tuple(m[1:5]):
                 msg = "model %s; implementation %s" % (m[1:5], r[1:])
-        elif m[0] == 'err' and m[1] in (1, 2, 3) and r[0] == 'ok':
+        elif m[0] == 'err' and m[1] in (1, 2, 3) and r[0] == 'ok' and not decl.final_as_name(toks):
             msg = "model rejects (code %d) but the implementation reports %s" % (m[1], r[1:])
         elif m[0] == 'err' and m[1] == 9:
             msg = "model ran out of fuel"
